@@ -1,4 +1,7 @@
 import Tickit.Model.TermPen
+import Tickit.Model.TermSuspend
+import Tickit.Model.SgrStrict
+import Tickit.Gen.TermBuf
 import Tickit.Driver.Common
 /-
   Engine `sgr` (C10).
@@ -6,6 +9,11 @@ import Tickit.Driver.Common
         with <pen>: the history starts with <pen> in force (a `setpen <pen>` issued as part of the construction and judged like
         any other request; observation `<construction> init <request>`)
     setpen <pen> | chpen <pen> | palette
+    suspend        tickit_term_pause then tickit_term_resume (`Model/TermSuspend.lean`); the logical pen is unchanged, so the
+                   terminal — after the bytes of pause (which reset the rendering attributes) and of resume — must again render
+                   with it.  Configuration `g`: the harness's driver stands for the xterm driver, whose `pause` writes `ESC [ m`.
+    print <word>   tickit_term_printf(tt, "%s", word): the text goes to the terminal as it is (x: `b=` its bytes; g: `t=` what the
+                   driver's `print` was handed); not a pen request — the rendering attributes must stay what the logical pen asks for.
   Model observation = what harness/sgr.c prints.  Specification verdict: the SGR interpreter of
   `Model/Sgr.lean` is run on the bytes the *implementation* emitted (configuration `x`), or on the
   bytes the modelled xterm encoder produces from the (delta, final) pens the *implementation* handed
@@ -14,6 +22,11 @@ import Tickit.Driver.Common
   "change-pen overlays only the attributes present in its argument" is also judged on its own (`frameDiff`): the bytes of a
   `chpen` must leave every rendering attribute whose pen attribute is absent from the argument as it was — whatever state the
   terminal was in (so also when an earlier request could not be encoded).
+  "The rendering state is determined by the SGR bytes emitted for setpen/chpen" also means that a pen request emits SGR
+  sequences and nothing else (`Model/SgrStrict.lean`, `strictDiff`): a byte that reaches the terminal outside a control sequence
+  is printed at the cursor or executed as a C0 control — the pen request drew something — and a sequence that is not an SGR
+  changes some other state.  Judged on the implementation's bytes of every request (configuration `x`); for `suspend` only the
+  bytes outside sequences are judged (which mode sequences pause and resume write is C12's business).
 -/
 namespace Tickit.Driver.SgrEngine
 open Tickit Tickit.Driver Tickit.TermPen Tickit.Sgr
@@ -78,6 +91,8 @@ structure DState where
   /-- specification: the logical pen and the terminal as driven by the implementation -/
   logical : Pen := {}
   vt : VT := {}
+  /-- does `tickit_term_resume` hand the cached pen to the driver's `chpen` (read from the source) -/
+  resend : Bool := Tickit.Gen.TermBuf.term_resume_resends_pen
 deriving Inhabited
 
 def showColr : Colr → String
@@ -123,11 +138,22 @@ def frameDiff (p : Pen) (before after : Attrs) : String :=
     chg "sizepos" p.sizepos.isNone (before.sizepos ≠ after.sizepos) (showSizePos before.sizepos) (showSizePos after.sizepos)]
   (cs.filterMap id).headD ""
 
+/-- A pen request (or pause + resume) must put nothing on the terminal but control sequences, and a pen request nothing but
+    SGR sequences: `bytes` arrive at the terminal `vt`. -/
+def strictDiff (what : String) (bytes : List Nat) (vt : VT) (seqs : Bool) : String :=
+  let ss := strays bytes vt
+  if !ss.isEmpty then
+    s!"{what} sent {ss.length} byte(s) outside any control sequence (hex {bytesHexN (ss.take 12)}): the terminal prints them at the cursor or executes them; only SGR sequences may be emitted"
+  else if seqs && foreign bytes vt ≠ 0 then
+    s!"{what} sent a control sequence that is not an SGR ({foreign bytes vt} offending byte(s))"
+  else ""
+
 /-- value of `key=` in an observation -/
 def field? (ts : List String) (key : String) : Option String :=
   (ts.find? (·.startsWith (key ++ "="))).map (fun t => (t.drop (key.length + 1)).toString)
 
-def specAfter (st : DState) (vt' : VT) (l' : Pen) (bytes : List Nat) (noopCheck : Bool) (chArg : Option Pen := none) : String :=
+def specAfter (st : DState) (vt' : VT) (l' : Pen) (bytes : List Nat) (noopCheck : Bool) (chArg : Option Pen := none)
+    (strict : String := "") : String :=
   if vt'.st ≠ .ground then "the terminal is left inside an unterminated control sequence"
   else
     let fr := match chArg with
@@ -137,6 +163,7 @@ def specAfter (st : DState) (vt' : VT) (l' : Pen) (bytes : List Nat) (noopCheck 
     -- the verdict names what the logical pen wants; the frame clause is added when it fails too
     if d ≠ "" then (if fr ≠ "" then d ++ "; " ++ fr else d)
     else if fr ≠ "" then fr
+    else if strict ≠ "" then strict
     else if noopCheck && l' = st.logical && !bytes.isEmpty then
       s!"request leaves the logical pen unchanged but emits {bytes.length} bytes"
     else ""
@@ -164,7 +191,7 @@ def penOp (st : DState) (op : Op) (impl : String) : DState × String × String :
       | some bs =>
         let bytes := bs.map (·.toNat)
         let vt' := run bytes st.vt
-        (vt', specAfter st vt' l' bytes true chArg)
+        (vt', specAfter st vt' l' bytes true chArg (strictDiff "the pen request" bytes st.vt true))
       | none =>
         (st.vt, if impl.startsWith "CRASH" then s!"the implementation aborted under the sanitizers ({impl})"
                 else s!"no bytes to interpret: implementation said '{impl}'")
@@ -183,6 +210,65 @@ def penOp (st : DState) (op : Op) (impl : String) : DState × String × String :
         (st.vt, if impl.startsWith "CRASH" then s!"the implementation aborted under the sanitizers ({impl})"
                 else s!"no (delta, final) to interpret: implementation said '{impl}'")
     ({ st with cache := cache', logical := l', vt := vt' }, mobs, sv)
+
+/-- `suspend`: pause + resume. -/
+def suspendOp (st : DState) (impl : String) : DState × String × String :=
+  let its := toks impl
+  let crash := if impl.startsWith "CRASH" then s!"the implementation aborted under the sanitizers ({impl})"
+               else s!"nothing to interpret: implementation said '{impl}'"
+  let pre (s : String) : String := if s = "" then "" else "after pause + resume: " ++ s
+  if st.mode = "x" then
+    let (mobs, dead') : String × Bool :=
+      if st.dead then ("ub after-overflow", true) else
+      match resumeChpen st.cfg.caps st.cfg.cap st.resend st.cache with
+      | .overflow n => (s!"ub params-overflow needed={n} cap={st.cfg.cap}", true)
+      | .bytes bs => (s!"p={bytesHexN xtermPauseBytes} b={bytesHexN (xtermResumeBytes ++ bs)} pen={showPen st.cache}", false)
+    let (vt', sv) : VT × String :=
+      match (field? its "p").bind hexBytes?, (field? its "b").bind hexBytes? with
+      | some ps, some bs =>
+        let bytes := bs.map (·.toNat)
+        let pbytes := ps.map (·.toNat)
+        let vt' := run bytes (run pbytes st.vt)
+        (vt', pre (specAfter st vt' st.logical bytes false none (strictDiff "pause + resume" (pbytes ++ bytes) st.vt false)))
+      | _, _ => (st.vt, crash)
+    ({ st with dead := dead', vt := vt' }, mobs, sv)
+  else
+    let mobs :=
+      if st.resend then s!"pause=1 resume=1 order=prc n=1 d={showPen st.cache} f={showPen st.cache} pen={showPen st.cache}"
+      else s!"pause=1 resume=1 order=pr n=0 d=? f=? pen={showPen st.cache}"
+    let vt1 := run xtermResumeBytes (run xtermPauseBytes st.vt)
+    let (vt', sv) : VT × String :=
+      match field? its "n" with
+      | some "0" => (vt1, pre (specAfter st vt1 st.logical [] false))
+      | some _ =>
+        match (field? its "d").bind parsePen, (field? its "f").bind parsePen with
+        | some d, some f =>
+          match xtermChpen st.cfg.caps st.cfg.cap d f with
+          | .bytes bytes =>
+            let vt' := run bytes vt1
+            (vt', pre (specAfter st vt' st.logical bytes false))
+          | .overflow n => (st.vt, s!"the xterm encoder would need {n} parameters")
+        | _, _ => (st.vt, crash)
+      | none => (st.vt, crash)
+    ({ st with vt := vt' }, mobs, sv)
+
+/-- `print <word>`: text between pen requests. -/
+def printOp (st : DState) (word : String) (impl : String) : DState × String × String :=
+  let text := word.toUTF8.toList.map (·.toNat)
+  if st.mode = "x" then
+    let mobs := if st.dead then "ub after-overflow" else s!"b={bytesHexN text} pen={showPen st.cache}"
+    let (vt', sv) : VT × String :=
+      match (field? (toks impl) "b").bind hexBytes? with
+      | some bs =>
+        let bytes := bs.map (·.toNat)
+        let vt' := run bytes st.vt
+        let s := specAfter st vt' st.logical bytes false
+        (vt', if s = "" then "" else "after printing text: " ++ s)
+      | none => (st.vt, if impl.startsWith "CRASH" then s!"the implementation aborted under the sanitizers ({impl})" else "")
+    ({ st with vt := vt' }, mobs, sv)
+  else
+    (st, s!"t={bytesHexN text} pen={showPen st.cache}",
+      if impl.startsWith "CRASH" then s!"the implementation aborted under the sanitizers ({impl})" else "")
 
 def stepBase (st : DState) (ts : List String) (impl : String) : DState × String × String :=
   match ts with
@@ -214,6 +300,10 @@ def stepBase (st : DState) (ts : List String) (impl : String) : DState × String
       let m := " ".intercalate (toString Tickit.Gen.Palette.size :: palettePairs)
       (st, m, if impl = m then "" else "Gen/Palette differs from the table the C compiler sees")
     else (st, "bad-op", "")
+  | ["suspend"] =>
+    if st.mode ≠ "x" ∧ st.mode ≠ "g" then (st, "bad-op", "") else suspendOp st impl
+  | ["print", word] =>
+    if st.mode ≠ "x" ∧ st.mode ≠ "g" then (st, "bad-op", "") else printOp st word impl
   | [opname, pen] =>
     if st.mode ≠ "x" ∧ st.mode ≠ "g" then (st, "bad-op", "") else
     match opname, parsePen pen with
